@@ -12,6 +12,7 @@ ghost's `dom` flag is the property's domain: Unix hours `8761 ≤ h < 2^32`,
 clock never going backwards.
 -/
 import AGH.Lemmas.StatsFixed
+import AGH.Lemmas.StatsBalance
 namespace AGH.C09
 
 /-- After EVERY history (hence after every step of it) the model's answer to
@@ -192,6 +193,28 @@ theorem C09_update_once (s : State) (e : Entry) (n : Nat) (hl : s.limit ≠ 0) :
   obtain ⟨s', e1, d1, _, _, _, i1, t1, r1⟩ := updateN_acc s e n hen hl hv (by omega)
   rw [e1]
   exact ⟨rfl, t1, d1, i1, r1⟩
+
+/-- Exactly one result category per counted query, for EVERY history (inside
+the domain or not): in the current unit the total is the sum of the five
+categories, and the four category totals the API reports never add up to more
+than the reported total. -/
+theorem C09_one_category (clock limitMs : Nat) (enabled : Bool) (ops : List Op) (s0 s : State)
+    (hnew : new [] clock limitMs enabled = some s0) (hrun : runOps s0 ops = some s)
+    (hid : s.curr.id < U32) (h1 : 1 ≤ s.limitHours) (h2 : s.limitHours < U32) :
+    s.curr.nTotal = s.curr.nResult 1 + s.curr.nResult 2 + s.curr.nResult 3 + s.curr.nResult 4 + s.curr.nResult 5 ∧
+    ∃ r, getData s = .ok r ∧
+      r.numBlockedFiltering + r.numReplacedSafebrowsing + r.numReplacedSafesearch + r.numReplacedParental
+        ≤ r.numDNSQueries := by
+  have hb : BalState s := bal_run ops (bal_new (fun x hx => by simp at hx) hnew) hrun
+  refine ⟨hb.1, ?_⟩
+  obtain ⟨hl, _⟩ := loadUnits_ok s s.limitHours hid h1 h2
+  obtain ⟨r, hr, t1, t2, t3, t4, t5, _⟩ :=
+    dataFromUnits_spec (storedUnits s s.limitHours ++ [s.curr.serialize]) s.curr.id
+  have h0 : ¬ s.limitHours = 0 := by omega
+  refine ⟨r, by simp only [getData, h0, if_false, hl]; exact hr, ?_⟩
+  have := sum_bal _ (bal_units hb s.limitHours)
+  rw [t1, t2, t3, t4, t5, this]
+  omega
 
 /-! ### Outside the domain: why `minHour` is needed
 
